@@ -101,6 +101,8 @@ pub enum Op {
     Dec { slot: Slot, all: bool },
     /// clock +1000 s, swap a->b then b->a through the ranges: fees in both tokens and rewards accrue
     SwapToEarn,
+    /// one swap a->b only: fees accrue in token A alone (a position can then be owed fees in exactly one token)
+    SwapOneWay,
     Update { slot: Slot },
     CollectFees { slot: Slot },
     CollectReward { slot: Slot },
@@ -144,7 +146,7 @@ impl Op {
             | Op::DecBy { slot, .. }
             | Op::RepositionBy { slot }
             | Op::ClosePlainOnBundled { slot } => Some(*slot),
-            Op::SwapToEarn | Op::DeleteBundle => None,
+            Op::SwapToEarn | Op::SwapOneWay | Op::DeleteBundle => None,
         }
     }
     fn kind(&self) -> &'static str {
@@ -157,6 +159,7 @@ impl Op {
             Op::Inc { .. } => "increase_liquidity",
             Op::Dec { .. } => "decrease_liquidity",
             Op::SwapToEarn => "swap_to_earn",
+            Op::SwapOneWay => "swap_one_way",
             Op::Update { .. } => "update_fees_and_rewards",
             Op::CollectFees { .. } => "collect_fees",
             Op::CollectReward { .. } => "collect_reward",
@@ -227,6 +230,7 @@ pub struct Stats {
     pub locked_states: AtomicU64,
     pub multi_bundle_states: AtomicU64,
     pub close_blocked_by_fees: AtomicU64,
+    pub close_blocked_by_fees_in_one_token: AtomicU64,
     pub close_blocked_by_rewards_only: AtomicU64,
     pub close_blocked_by_lock: AtomicU64,
     pub reset_blocked_by_owed: AtomicU64,
@@ -360,7 +364,7 @@ impl<'a> LifeModel<'a> {
             }
             Op::Inc { .. } => yes(g.open, "liquidity can be added to any open position (locked or not)"),
             Op::Dec { .. } => yes(g.open && !g.locked, "liquidity can be removed iff the position is open and not locked"),
-            Op::SwapToEarn | Op::Update { .. } => Expect { enabled: None, why: String::new(), open: None },
+            Op::SwapToEarn | Op::SwapOneWay | Op::Update { .. } => Expect { enabled: None, why: String::new(), open: None },
             Op::CollectFees { .. } | Op::CollectReward { .. } => yes(g.open, "collecting is allowed on any open position (locked or not)"),
             Op::Close { .. } => yes(g.open && !g.locked && acc.as_ref().map(is_empty).unwrap_or(false), "close iff open, not locked, liquidity = owed fees = owed rewards = 0"),
             Op::Reset { to, .. } => {
@@ -427,6 +431,24 @@ impl<'a> LifeModel<'a> {
                     last = svm::process(&mut l, &world::ix_swap(p, &w.trader, a, tas, v2, &[]));
                     if !last.ok() {
                         break;
+                    }
+                }
+                last
+            }
+            Op::SwapOneWay => {
+                // on both pools (the full-range-only pool has no reward: its positions can be owed a fee in one token and nothing else)
+                let mut last = Outcome::default();
+                for pi in [MAIN, FRO] {
+                    let p = &w.pools[pi];
+                    let st = p.state(&l);
+                    if pi == FRO && st.liquidity == 0 {
+                        continue; // an empty pool would only be pushed to the price bound
+                    }
+                    let a = SwapArgs { amount: 3_000_000, other_amount_threshold: 0, sqrt_price_limit: 0, amount_specified_is_input: true, a_to_b: true };
+                    let tas = world::swap_tick_arrays(p, st.tick_current_index, true);
+                    let o = svm::process(&mut l, &world::ix_swap(p, &w.trader, a, tas, true, &[]));
+                    if pi == MAIN {
+                        last = o;
                     }
                 }
                 last
@@ -517,6 +539,9 @@ impl<'a> LifeModel<'a> {
                 } else if let Some(a) = acc {
                     if a.liquidity == 0 && (a.fee_owed_a > 0 || a.fee_owed_b > 0) {
                         bump(&st.close_blocked_by_fees);
+                        if (a.fee_owed_a > 0) != (a.fee_owed_b > 0) && a.reward_infos.iter().all(|r| r.amount_owed == 0) {
+                            bump(&st.close_blocked_by_fees_in_one_token);
+                        }
                     }
                     if a.liquidity == 0 && a.fee_owed_a == 0 && a.fee_owed_b == 0 && a.reward_infos.iter().any(|r| r.amount_owed > 0) {
                         bump(&st.close_blocked_by_rewards_only);
@@ -686,7 +711,7 @@ impl<'a> LifeModel<'a> {
                     bump(&self.stats.locked_collect_ok);
                 }
             }
-            Op::SwapToEarn | Op::Update { .. } | Op::Approve { .. } => {}
+            Op::SwapToEarn | Op::SwapOneWay | Op::Update { .. } | Op::Approve { .. } => {}
             Op::ClosePlainOnBundled { .. } => unreachable!("never enabled: a success is reported before the machine update"),
         }
         // ---- frame: no other position account is touched by a position-targeted instruction
@@ -910,6 +935,7 @@ impl<'a> Model for LifeModel<'a> {
             }
         }
         v.push(Op::SwapToEarn);
+        v.push(Op::SwapOneWay);
         if self.slots.iter().any(|s| matches!(s, Slot::B(_))) {
             v.push(Op::DeleteBundle);
         }
@@ -1058,6 +1084,7 @@ pub fn run(ctx: &Ctx) -> Report {
     r.guard("states_with_locked_position", a(&stats.locked_states));
     r.guard("states_with_2plus_bundled_open", a(&stats.multi_bundle_states));
     r.guard("close_blocked_by_owed_fees", a(&stats.close_blocked_by_fees));
+    r.guard("close_blocked_by_fees_owed_in_one_token_only", a(&stats.close_blocked_by_fees_in_one_token));
     r.guard("close_blocked_by_owed_rewards_only", a(&stats.close_blocked_by_rewards_only));
     r.guard("close_blocked_by_lock", a(&stats.close_blocked_by_lock));
     r.guard("reset_blocked_by_owed_amounts", a(&stats.reset_blocked_by_owed));
